@@ -177,6 +177,12 @@ func c18Ops(thorough bool) []c18Op {
 		{Name: "PutObject small, wrong secret", BadSig: true, Req: func(map[string]string) *gw.Req {
 			return NewReq("PUT", gw.ObjPath(c18B, "k1"), "", H("x-amz-meta-color", "Red"), []byte("forged"))
 		}},
+		{Name: "PutObject small, wrong secret, own checksum", BadSig: true, Req: func(map[string]string) *gw.Req {
+			return NewReq("PUT", gw.ObjPath(c18B, "k1"), "", H("x-amz-meta-color", "Red", "x-amz-checksum-crc32", gw.Checksum("crc32", []byte("forged"))), []byte("forged"))
+		}},
+		{Name: "PutObject small, wrong checksum", Req: func(map[string]string) *gw.Req {
+			return NewReq("PUT", gw.ObjPath(c18B, "k1"), "", H("x-amz-meta-color", "Green", "x-amz-checksum-sha256", gw.Checksum("sha256", []byte("another body"))), []byte("mismatch"))
+		}},
 		{Name: "DeleteObject, wrong secret", BadSig: true, Req: func(map[string]string) *gw.Req { return NewReq("DELETE", gw.ObjPath(c18B, "k1"), "", nil, nil) }},
 		{Name: "PutObject 70000", Req: func(map[string]string) *gw.Req {
 			return NewReq("PUT", gw.ObjPath(c18B, "dir/k2"), "", H("x-amz-meta-a", "1", "x-amz-meta-b", "two words"), big)
@@ -234,6 +240,9 @@ func c18Ops(thorough bool) []c18Op {
 		{Name: "CompleteMultipartUpload", Req: func(st map[string]string) *gw.Req {
 			return NewReq("POST", gw.ObjPath(c18B, "mp"), gw.Q("uploadId", orDash(st["upload"])), nil, []byte("<CompleteMultipartUpload><Part><PartNumber>1</PartNumber><ETag>"+st["etag"]+"</ETag></Part></CompleteMultipartUpload>"))
 		}},
+		{Name: "CompleteMultipartUpload stating object size 0", Req: func(st map[string]string) *gw.Req {
+			return NewReq("POST", gw.ObjPath(c18B, "mp"), gw.Q("uploadId", orDash(st["upload"])), H("x-amz-mp-object-size", "0"), []byte("<CompleteMultipartUpload><Part><PartNumber>1</PartNumber><ETag>"+st["etag"]+"</ETag></Part></CompleteMultipartUpload>"))
+		}},
 		{Name: "AbortMultipartUpload", Req: func(st map[string]string) *gw.Req {
 			return NewReq("DELETE", gw.ObjPath(c18B, "mp"), gw.Q("uploadId", orDash(st["upload"])), nil, nil)
 		}},
@@ -285,6 +294,8 @@ func c18Observers(st map[string]string) []*gw.Req {
 		NewReq("GET", "/"+c18B, gw.Q("prefix", "dir/"), nil, nil),
 		NewReq("GET", "/"+c18B, "uploads", nil, nil),
 		NewReq("GET", gw.ObjPath(c18B, "mp"), gw.Q("uploadId", orDash(st["upload"])), nil, nil),
+		NewReq("GET", "/"+c18B, gw.Q("uploads", "", "max-uploads", "0"), nil, nil),
+		NewReq("GET", gw.ObjPath(c18B, "mp"), gw.Q("uploadId", orDash(st["upload"]), "max-parts", "0"), nil, nil),
 		NewReq("GET", "/"+c18B, "tagging", nil, nil),
 		NewReq("GET", "/"+c18B, "policy", nil, nil),
 		NewReq("GET", "/"+c18B, "acl", nil, nil),
@@ -419,7 +430,7 @@ func C18(r *ck.Run) {
 	if r.Thorough() {
 		depth = 3
 	}
-	r.Rule(fmt.Sprintf("every program of length <= %d over 28 (32 thorough) bucket, object, tagging, policy, listing and multipart operations (three of them signed with a wrong secret) is executed twice from an empty store: through a gateway whose backend is s3proxy pointed at an endpoint process (a posix versitygw on loopback TCP), and against that endpoint directly; after every step 26 read requests (GET whole / ranges, HEAD, attributes, tagging, listings v1/v2 with prefix / delimiter / max-keys, uploads, parts, bucket tagging / policy / ACL / versioning) are issued on both sides and every response (status, error code, content headers, user metadata, ETag, body with timestamps and ids masked) must be equal; callers: root and a userplus account that owns the bucket; distinct = (caller, program)", depth))
+	r.Rule(fmt.Sprintf("every program of length <= %d over 31 (35 thorough) bucket, object, tagging, policy, listing and multipart operations (four of them signed with a wrong secret, one with a checksum that is not the body's, one completion that states object size 0) is executed twice from an empty store: through a gateway whose backend is s3proxy pointed at an endpoint process (a posix versitygw on loopback TCP), and against that endpoint directly; after every step 28 read requests (GET whole / ranges, HEAD, attributes, tagging, listings v1/v2 with prefix / delimiter / max-keys, uploads, parts, bucket tagging / policy / ACL / versioning) are issued on both sides and every response (status, error code, content headers, user metadata, ETag, body with timestamps and ids masked) must be equal; callers: root and a userplus account that owns the bucket; distinct = (caller, program)", depth))
 	r.Assume("the 'other S3 endpoint' is versitygw itself (posix backend) in a child process; error documents are compared by status and code only")
 	ops := c18Ops(r.Thorough())
 	var progs [][]int
@@ -486,6 +497,8 @@ func C18(r *ck.Run) {
 		byName("CreateBucket", "PutObject small+meta", "PutBucketVersioning Enabled", "PutObject empty", "DeleteObject", "DeleteObject versionId=null"),
 		byName("CreateBucket", "PutObject small+meta", "PutObjectTagging", "PutObjectTagging empty tag set", "PutObjectTagging"),
 		byName("CreateBucket", "PutBucketVersioning Enabled", "PutObject small+meta", "PutObject empty", "DeleteObject", "PutObject small+meta"),
+		byName("CreateBucket", "CreateMultipartUpload", "UploadPart", "CompleteMultipartUpload stating object size 0", "CompleteMultipartUpload"),
+		byName("CreateBucket", "PutObject small+meta", "PutObject small, wrong secret, own checksum", "PutObject small, wrong checksum"),
 	)
 	r.Extra("programs", len(progs))
 	r.Sharded(16, func() {
